@@ -472,7 +472,7 @@ impl OwnedValue {
             OwnedValue::Null => builder.set_null(idx),
             OwnedValue::Bool(b) => builder.set_bool(idx, *b)?,
             OwnedValue::Int(i) => builder.set_int_auto(idx, *i)?,
-            OwnedValue::Float(f) => builder.set_float8(idx, *f)?,
+            OwnedValue::Float(f) => builder.set_float_auto(idx, *f)?,
             OwnedValue::Text(s) => builder.set_text(idx, s)?,
             OwnedValue::Blob(b) => builder.set_blob(idx, b)?,
             OwnedValue::Vector(v) => builder.set_vector(idx, v)?,
